@@ -8,7 +8,7 @@ use crate::ops::{Op, RunCfg};
 use crate::rng::Digest;
 use crate::sut::{Caps, Sut};
 use crate::value::Value;
-use std::collections::BTreeSet;
+use std::collections::{BTreeMap, BTreeSet};
 
 #[derive(Clone, Debug)]
 pub struct Violation {
@@ -63,9 +63,10 @@ struct Inst<T: Sut> {
     scratch: Option<T::Val>,
     coded_mode: bool,
     accept_syms: BTreeSet<u32>,
-    accept_first: [bool; 256],
+    /// per stream (column of a columns-over-codec region, else stream 0): first bytes observed
+    accept_first: BTreeMap<usize, [bool; 256]>,
     stat_syms: BTreeSet<u32>,
-    stat_first: [bool; 256],
+    stat_first: BTreeMap<usize, [bool; 256]>,
 }
 
 struct Group {
@@ -92,6 +93,8 @@ pub struct Sim<'c, T: Sut> {
     caps: Caps,
     coded: u8,
     has_collapse: bool,
+    /// the dictionary codec sits under a columns region: one codec, and one contract, per column
+    codec_per_column: bool,
     pop: Vec<Inst<T>>,
     groups: Vec<Group>,
     next_uid: u32,
@@ -127,6 +130,7 @@ impl<'c, T: Sut> Sim<'c, T> {
             caps,
             coded,
             has_collapse: name.contains("Collapse"),
+            codec_per_column: name.contains("ColumnsRegion<CodecRegion"),
             pop: Vec::new(),
             groups: Vec::new(),
             next_uid: 0,
@@ -169,9 +173,9 @@ impl<'c, T: Sut> Sim<'c, T> {
             scratch: None,
             coded_mode: false,
             accept_syms: BTreeSet::new(),
-            accept_first: [false; 256],
+            accept_first: BTreeMap::new(),
             stat_syms: BTreeSet::new(),
-            stat_first: [false; 256],
+            stat_first: BTreeMap::new(),
         }
     }
 
@@ -461,13 +465,22 @@ impl<'c, T: Sut> Sim<'c, T> {
             2 => {
                 let mut bs = Vec::new();
                 v.byte_strings(&mut bs);
-                bs.iter().all(|b| b.is_empty() || inst.accept_first[b[0] as usize])
+                let per_col = self.codec_per_column;
+                bs.iter().enumerate().all(|(k, b)| {
+                    let sid = if per_col { k } else { 0 };
+                    // no statistics for a stream: its dictionary is empty and stores everything literally
+                    b.is_empty() || inst.accept_first.get(&sid).map(|a| a[b[0] as usize]).unwrap_or(true)
+                })
             }
             _ => true,
         }
     }
 
     fn note_stats(inst: &mut Inst<T>, coded: u8, v: &T::Val) {
+        Self::note_stats_cols(inst, coded, v, T::name().contains("ColumnsRegion<CodecRegion"))
+    }
+
+    fn note_stats_cols(inst: &mut Inst<T>, coded: u8, v: &T::Val, per_col: bool) {
         match coded {
             1 => {
                 let mut l = Vec::new();
@@ -477,9 +490,9 @@ impl<'c, T: Sut> Sim<'c, T> {
             2 => {
                 let mut bs = Vec::new();
                 v.byte_strings(&mut bs);
-                for b in bs {
+                for (k, b) in bs.iter().enumerate() {
                     if let Some(f) = b.first() {
-                        inst.stat_first[*f as usize] = true;
+                        inst.stat_first.entry(if per_col { k } else { 0 }).or_insert([false; 256])[*f as usize] = true;
                     }
                 }
             }
@@ -780,7 +793,7 @@ impl<'c, T: Sut> Sim<'c, T> {
             inst.origins |= O_CLEARED;
             inst.coded_mode = false;
             inst.stat_syms.clear();
-            inst.stat_first = [false; 256];
+            inst.stat_first.clear();
             if let Some(b) = before {
                 if let Some(a) = self.heap_of(i)? {
                     let (cb, ca): (usize, usize) = (b.iter().map(|p| p.1).sum(), a.iter().map(|p| p.1).sum());
@@ -810,9 +823,9 @@ impl<'c, T: Sut> Sim<'c, T> {
     fn copy_contract(dst: &mut Inst<T>, src: &Inst<T>) {
         dst.coded_mode = src.coded_mode;
         dst.accept_syms = src.accept_syms.clone();
-        dst.accept_first = src.accept_first;
+        dst.accept_first = src.accept_first.clone();
         dst.stat_syms = src.stat_syms.clone();
-        dst.stat_first = src.stat_first;
+        dst.stat_first = src.stat_first.clone();
         dst.pushes_since_reset = src.pushes_since_reset;
         dst.last_push = src.last_push;
         dst.model = src.model.clone();
@@ -884,7 +897,7 @@ impl<'c, T: Sut> Sim<'c, T> {
         // dst becomes a copy of src
         let (origins, snapshot) = {
             let s = &self.pop[si];
-            (s.origins | O_CLONED, (s.coded_mode, s.accept_syms.clone(), s.accept_first, s.stat_syms.clone(), s.stat_first, s.pushes_since_reset, s.last_push, s.model.clone()))
+            (s.origins | O_CLONED, (s.coded_mode, s.accept_syms.clone(), s.accept_first.clone(), s.stat_syms.clone(), s.stat_first.clone(), s.pushes_since_reset, s.last_push, s.model.clone()))
         };
         {
             let d = &mut self.pop[di];
@@ -956,8 +969,11 @@ impl<'c, T: Sut> Sim<'c, T> {
             for i in &idxs {
                 let s = &self.pop[*i];
                 ni.accept_syms.extend(s.stat_syms.iter().copied());
-                for k in 0..256 {
-                    ni.accept_first[k] |= s.stat_first[k];
+                for (sid, seen) in &s.stat_first {
+                    let a = ni.accept_first.entry(*sid).or_insert([false; 256]);
+                    for k in 0..256 {
+                        a[k] |= seen[k];
+                    }
                 }
             }
         }
